@@ -1,6 +1,6 @@
 SPECIFICATION Spec
 CONSTANTS
-  Families = {"A1", "B", "C0", "E0", "K0", "R"}
+  Families = {"A1", "B", "C0", "E0", "K0", "R", "G"}
 INVARIANT CacheInDatainfo
 INVARIANT ConstantsHold
 INVARIANT EmittedConverts
